@@ -1123,6 +1123,10 @@ func (e *Evaluator) evalPatternRules(patternRules []*Rule) error {
 }
 
 func (e *Evaluator) GetRootJson() (string, error) {
+	if e.root == nil {
+		// no input value was read (empty input, or exit before the first value)
+		return "null", nil
+	}
 	val, err := e.root.Value.ToGoValue()
 	if err != nil {
 		return "", err
